@@ -51,7 +51,7 @@ t1=$(date +%s)
 say "$id: $prop quick exit=$q ($((t1-t0))s) $(grep -c '^VIOLATION' $out/$id.quick.txt) violation lines"
 grep "^  class=" $out/$id.quick.txt | sort | uniq -c | sort -rn | head -4 | cut -c1-220 >> $log
 th=-
-if [ $q -eq 0 ]; then
+if [ $q -eq 0 ] && [ -z "$QUICK_ONLY" ]; then
   VERIF_DIR=$vm VERIF_REPO=$wt timeout 5400 $vm/bin/check $prop thorough > $out/$id.thorough.txt 2>&1; th=$?
   t2=$(date +%s)
   say "$id: $prop thorough exit=$th ($((t2-t1))s) $(grep -c '^VIOLATION' $out/$id.thorough.txt) violation lines"
